@@ -83,6 +83,12 @@ class Hand(twisted.internet.protocol.Protocol):
                 dawgie.pl.schedule.update(msg.values, job, msg.runid)
             else:
                 dawgie.pl.schedule.purge(job, inc)
+                for idle in [
+                    j
+                    for j in dawgie.pl.schedule.que
+                    if not (j.get('todo') or j.get('doing'))
+                ]:
+                    dawgie.pl.schedule.que.remove(idle)
 
         except IndexError:
             log.error('Could not find job with ID: %s', msg.jobid)
